@@ -5,7 +5,7 @@ import glob, json, os, subprocess, sys
 from concurrent.futures import ThreadPoolExecutor
 V = '/verif'
 ids = sys.argv[1:] or sorted(os.path.basename(os.path.dirname(p)) for p in glob.glob(f'{V}/seeded/*/meta.json'))
-EXTRA = {'C03-6': ['C14'], 'C05-4': ['C06'], 'C07-3': ['C09'], 'C01-1': ['C09'], 'C01-2': ['C07'], 'C01-3': ['C14'], 'C12-1': ['C09'], 'C09-2': ['C04'], 'C09-3': ['C07'], 'C03-8': ['C14'], 'C01-8': ['C07'], 'C01-9': ['C14'], 'C07-9': ['C09'], 'C19-9': ['C09'], 'C12-9': ['C18'], 'C02-5': ['C07']}
+EXTRA = {'C03-6': ['C14'], 'C05-4': ['C06'], 'C07-3': ['C09'], 'C01-1': ['C09'], 'C01-2': ['C07'], 'C01-3': ['C14'], 'C12-1': ['C09'], 'C09-2': ['C04'], 'C09-3': ['C07'], 'C03-8': ['C14'], 'C01-8': ['C07'], 'C01-9': ['C14'], 'C07-9': ['C09'], 'C19-9': ['C09'], 'C12-9': ['C18'], 'C02-5': ['C07'], 'C01-10': ['C11'], 'C01-11': ['C07']}
 
 def run(sid):
     m = json.load(open(f'{V}/seeded/{sid}/meta.json'))
